@@ -82,6 +82,7 @@ class Recorder:
         self.counts = {}
         self.robot = None
         self.faults = []
+        self.same = {}
         self.early = None          # {"site": s, "fn": f}: f() runs inside the next call of callback s (a driver-station change mid-iteration)
 
     def snapshot(self):
@@ -115,6 +116,14 @@ class Recorder:
             adv = st.get("adv")
             if adv:
                 self.step(adv)
+            if st.get("raise") == "sameobj":
+                # one stored exception object, raised again on every call (its traceback keeps growing)
+                e = self.same.get(site)
+                if e is None:
+                    e = self.same[site] = InjectedFault(site, i)
+                self.faults.append(e)
+                self.log.append(["raise", site, i])
+                raise e
             if st.get("raise"):
                 e = FAULT_KINDS[st["raise"]](site, i)
                 self.faults.append(e)
